@@ -285,7 +285,8 @@ def check_quantities(s, ref, geoms, where, sigp):
     if len(P) >= 4 and np.linalg.matrix_rank(P - P.mean(axis=0), tol=1e-9) == 3:
         hv = ConvexHull(P).volume
         h = s.convex_hull
-        check(abs(h.volume - hv) <= 1e-8 * hv, sigp + "|convex_hull|volume", f"{where}: {h.volume} vs {hv}")
+        # a point set that is flat to within rounding has a hull volume that is rounding noise on both sides
+        check(abs(h.volume - hv) <= 1e-8 * hv + 1e-9 * scale**3, sigp + "|convex_hull|volume", f"{where}: {h.volume} vs {hv}")
     # dump / to_mesh / to_geometry
     d = s.dump()
     check(len(d) == len(ref.instances()), sigp + "|dump|count", f"{where}: {len(d)} dumped vs {len(ref.instances())} instances")
